@@ -254,6 +254,14 @@ def section_nonherm():
             for nparam, maxtot in ((1, 3), (2, 2)):
                 pb = Problem(E, sub, nparam=nparam, hermitian=False, seed=10 + li, fmt=fmt)
                 check_problem("nonherm", pb, maxtot, fully=fully, label=f"nh{li}/{fmt}/p{nparam}")
+    # asymmetric elimination masks (allowed without Hermiticity), dense and sparse values, on inputs where the shipped algorithm is exact:
+    # a single block with a triangular mask
+    for li, (E, upper) in enumerate((([0.0, 1.0, 2.5, 4.0], True), ([0.5j, 1.0, 3.0 + 1j], False))):
+        n = len(E)
+        m = np.triu(np.ones((n, n), dtype=bool), 1) if upper else np.tril(np.ones((n, n), dtype=bool), -1)
+        for fmt in ("dense", "sparse"):
+            pb = Problem(E, [0] * n, hermitian=False, seed=30 + li, fmt=fmt)
+            check_problem("nonherm", pb, 3, mask_dict={0: m}, label=f"nh-asymmetric-mask{li}/{fmt}")
     # Hermitian input: both modes agree
     global cases
     for li, (E, sub) in enumerate([([0.0, 0.0, 2.0, 2.0], [0, 0, 1, 1]), ([0.0, 1.0, 3.0, 4.5], [0, 0, 1, 1])]):
@@ -351,6 +359,35 @@ def section_spectrum():
         bad = {k: v for k, v in diff.items() if k[1] <= N and abs(complex(v)) > 1e-7}
         if bad:
             fail("spectrum", "characteristic polynomial of the truncated H_tilde differs from that of H below order N+1", layout=li, coefficients=list(bad.items())[:3])
+
+
+def section_spectrum_sparse():
+    """C04 with sparse values and degenerate levels inside a fully diagonalized block (degenerate perturbation theory):
+    eigenvalues of the truncated H_tilde against exact eigenvalues, error must scale like lambda^(N+1)."""
+    global cases
+    rng = np.random.default_rng(45)
+    for E, sub, fully in (([0.0, 0.0, 1.0, 2.5], [0, 0, 0, 0], ()), ([0.0, 0.0, 1.0, 3.0, 3.0], [0, 0, 0, 1, 1], (0,)), ([1.0, 1.0, 0.0, 0.0], [0, 0, 1, 1], (0, 1))):
+        n = len(E)
+        M = rng.normal(size=(n, n))
+        M = (M + M.T) / 2
+        for fmt in ("dense", "sparse"):
+            cases += 1
+            conv = np.array if fmt == "dense" else sparse.csr_array
+            kw = {"fully_diagonalize": fully} if fully else {}
+            try:
+                Ht = block_diagonalize([conv(np.diag(E)), conv(M)], subspace_indices=sub, **kw)[0]
+            except Exception as e:
+                fail("spectrum_sparse", "block_diagonalize raised", fmt=fmt, E=E, error=repr(e)[:200])
+                continue
+            pb = Problem(E, sub, seed=0)
+            errs = {}
+            for N in (1, 2, 3):
+                for lam in (0.02, 0.01):
+                    Heff = sum(lam ** k * pb.assemble(Ht, (k,)) for k in range(N + 1))
+                    exact = np.linalg.eigvalsh(np.diag(E) + lam * M)
+                    errs[(N, lam)] = np.abs(np.sort(np.linalg.eigvals(Heff).real) - exact).max()
+                if errs[(N, 0.02)] > 20 * 0.02 ** (N + 1) * max(1.0, np.abs(M).max()) ** (N + 1):
+                    fail("spectrum_sparse", "spectrum of the truncated H_tilde is not exact to order N", fmt=fmt, E=E, fully=fully, order=N, err=float(errs[(N, 0.02)]))
 
 
 def section_spectrum_implicit():
@@ -477,6 +514,19 @@ def section_solvers():
                 H = (v * w) @ v.conj().T
             vA, vB = v[:, :2], v[:, 2:na]
             h = sparse.csr_array(H)
+            # the explicit levels need not be supplied in ascending energy order, and the members of a degenerate level need not be adjacent
+            try:
+                perm = [2, 0, 1] if not degenerate else [0, 2, 1]
+                vP, wP = v[:, perm], w[perm]
+                ssP = solve_sylvester_direct(h, [vP])
+                Yp = rng.normal(size=(3, n)) + (1j * rng.normal(size=(3, n)) if cplx else 0)
+                Vp = np.asarray(ssP(Yp, (0, 1)))
+                Pp = np.eye(n) - vP @ vP.conj().T
+                if np.abs(np.diag(wP) @ Vp - Vp @ H - Yp @ Pp).max() > 1e-7:
+                    fail("solvers", "direct solver: E V - V H != Y P when the explicit levels are not supplied in ascending / grouped order", cplx=cplx, degenerate=degenerate,
+                         err=float(np.abs(np.diag(wP) @ Vp - Vp @ H - Yp @ Pp).max()))
+            except Exception as e:
+                fail("solvers", "direct solver raised for unsorted explicit levels", cplx=cplx, degenerate=degenerate, error=repr(e)[:300])
             try:
                 ss = solve_sylvester_direct(h, [vA, vB])
                 for blk, vecs, es in ((0, vA, w[:2]), (1, vB, w[2:na])):
